@@ -568,4 +568,12 @@ PROPS["C11"]["parts"] = [
 ]
 PROPS["C11"]["level_text"] += " A second part runs the succession cells of the two-client harness: a first client negotiates on a clean path and dies, and the client under test then negotiates through a case-folding relay in the slot the first one left behind; what it settled on must carry its packets."
 PROPS["C01"]["level_text"] += " The grid also has IPv6-transport cells (NULL/TXT/MX/CNAME/A in DNS mode, lazy and immediate, and raw UDP mode; the server listens on both families), in the clean-path set, in the single-deviation set and for two clients."
+_cov_c18_base = PROPS["C18"]["coverage"]
+def _cov_c18(st, tier):
+    c = _cov_c18_base(st, tier)
+    c["logins_through_the_real_server_loop"] = st.get("logins_through_server_loop", 0)
+    c["transitions"] += st.get("logins_through_server_loop", 0)
+    return c
+PROPS["C18"]["coverage"] = _cov_c18
+PROPS["C18"]["level_text"] += " For ten configurations (among them server and client addresses of 15 characters) every slot is also taken through the real server loop (version + login), and the server address, client address, mtu and netmask announced in the login reply must be the ones the server's table holds, distinct, and found by the lookup."
 
